@@ -144,3 +144,24 @@ func divLoopRule(c *core.Check, r *core.Rule, filter func(*ssa.Function) bool) i
 	}
 	return n
 }
+
+// sideSumRule registers one obligation per additive expression over box edges in the given files.
+func sideSumRule(c *core.Check, r *core.Rule, pkg string, files map[string]bool, floor int) {
+	p := c.Prog
+	sums := p.SideSums(pkg, func(f string) bool { return files == nil || files[f] })
+	seen := map[string]int{}
+	for _, ss := range sums {
+		key := pkg + "." + ss.Func + " | " + ss.Text
+		if len(key) > 150 {
+			key = key[:150] + "…"
+		}
+		seen[key]++
+		if seen[key] > 1 {
+			key = fmt.Sprintf("%s #%d", key, seen[key])
+		}
+		r.Cond(ss.Consistent, key, p.Pos(ss.Expr.Pos()), ss.Kinds, "the sum mixes the sides of different box edges ("+ss.Kinds+"): margin, padding and border are expected with the same sides in one sum")
+	}
+	if len(sums) < floor {
+		r.Unknown("box-edge sums in "+pkg, "-", fmt.Sprintf("%d sums found, %d on the tree this rule was written for", len(sums), floor))
+	}
+}
